@@ -3,7 +3,9 @@ package c09
 import (
 	"bytes"
 	"context"
+	"errors"
 	"fmt"
+	"io"
 	"os"
 	"path/filepath"
 	"strings"
@@ -14,6 +16,7 @@ import (
 	"pgregory.net/rapid"
 
 	"github.com/regclient/regclient"
+	"github.com/regclient/regclient/scheme/reg"
 	"github.com/regclient/regclient/types/ref"
 	"github.com/regclient/regclient/zz_verif/audit"
 	"github.com/regclient/regclient/zz_verif/copysc"
@@ -42,6 +45,7 @@ func TestMain(m *testing.M) {
 type Pre struct {
 	Keep     []string `json:"keep,omitempty"` // digests of the graph already present at the target
 	StaleTag bool     `json:"stale_tag,omitempty"`
+	Complete bool     `json:"complete,omitempty"` // the whole graph is already there and the target tag already names the image
 }
 
 // Case is one generated scenario. Kind "roundtrip": export of Graph from the
@@ -59,10 +63,22 @@ type Case struct {
 	ExportRef int           `json:"export_ref,omitempty"` // index into exportRefs (0 = no override)
 	TgtTag    string        `json:"tgt_tag"`
 	TgtByDig  bool          `json:"tgt_by_dig,omitempty"` // base import: target ref is repo@digest
-	Pre       Pre           `json:"pre"`
-	Variants  []Variant     `json:"variants,omitempty"`
-	Docker    *DockerCase   `json:"docker,omitempty"`
-	DockerVar *Variant      `json:"docker_var,omitempty"` // order / prefix / directory / link / outer gzip variation of the Docker archive
+	// SrcForm: further forms of the source reference: "digest" (repo@digest, no tag), "default" (no tag, no digest:
+	// the default tag latest), "child" (tag of the index + digest of one of its images: what `regctl image export --platform` passes)
+	SrcForm     string `json:"src_form,omitempty"`
+	SrcChild    int    `json:"src_child,omitempty"`
+	TgtForm     string `json:"tgt_form,omitempty"`     // "tag+digest" | "default" (no tag, no digest)
+	SrcRedirect bool   `json:"src_redirect,omitempty"` // source registry answers blob GETs with a redirect to a storage host
+	TgtChunk    int    `json:"tgt_chunk,omitempty"`    // reg.WithBlobSize(chunk, chunk) of the importing client (0 = defaults)
+	Reimport    bool   `json:"reimport,omitempty"`     // the archive is imported a second time into the same target
+	// probes: an extra export / import under a context or writer fault; only a nil return is judged
+	ExportProbe string      `json:"export_probe,omitempty"` // cancelled | cancel-at | writer-fail
+	ImportProbe string      `json:"import_probe,omitempty"` // cancelled | cancel-at
+	ProbeAt     int         `json:"probe_at,omitempty"`
+	Pre         Pre         `json:"pre"`
+	Variants    []Variant   `json:"variants,omitempty"`
+	Docker      *DockerCase `json:"docker,omitempty"`
+	DockerVar   *Variant    `json:"docker_var,omitempty"` // order / prefix / directory / link / outer gzip variation of the Docker archive
 }
 
 const (
@@ -116,6 +132,10 @@ func genVariant(t *rapid.T, label string, allowMulti bool) Variant {
 		v.Links = append(v.Links, l)
 	}
 	v.Extra = rapid.IntRange(0, 3).Draw(t, label+"_extra") == 0
+	v.TarFormat = rapid.SampledFrom([]int{0, 0, 1, 2}).Draw(t, label+"_tarfmt")
+	if rapid.IntRange(0, 4).Draw(t, label+"_dup") == 0 {
+		v.DupMembers = rapid.SliceOfN(rapid.IntRange(0, 40), 1, 3).Draw(t, label+"_dupmembers")
+	}
 	v.Gzip = rapid.IntRange(0, 2).Draw(t, label+"_gz") == 0
 	if v.Gzip && rapid.Bool().Draw(t, label+"_gzmulti") {
 		// multi-member outer gzip (cat a.gz b.gz, bgzip, ...); equal offsets / 0 give empty members
@@ -125,6 +145,7 @@ func genVariant(t *rapid.T, label string, allowMulti bool) Variant {
 		v.Multi = &Multi{
 			DecoyFirst: rapid.Bool().Draw(t, label+"_mfirst"),
 			By:         rapid.SampledFrom([]string{"name", "tag", "digest"}).Draw(t, label+"_mby"),
+			FullNames:  rapid.IntRange(0, 3).Draw(t, label+"_mfull") == 0,
 			PickDecoy:  rapid.IntRange(0, 3).Draw(t, label+"_mdecoy") == 0,
 		}
 	}
@@ -133,14 +154,15 @@ func genVariant(t *rapid.T, label string, allowMulti bool) Variant {
 
 func genRoundTrip(t *rapid.T) Case {
 	c := Case{Kind: "roundtrip"}
-	io := imggen.DefaultOptions()
-	io.ExtHost = hostExt
+	gopt := imggen.DefaultOptions()
+	gopt.ExtHost = hostExt
 	// content ImageExport documents / signals as unsupported is kept to a minority of the cases
-	io.Schema1 = rapid.IntRange(0, 4).Draw(t, "allow_schema1") == 0
-	io.Artifacts = rapid.IntRange(0, 2).Draw(t, "allow_artifacts") == 0
-	io.Foreign = rapid.IntRange(0, 4).Draw(t, "allow_foreign") == 0
-	io.NoMediaType = true // OCI image manifests without the optional mediaType field (as C03; the type then comes from the listing descriptor)
-	c.Graph = imggen.Gen(t, io)
+	gopt.Schema1 = rapid.IntRange(0, 4).Draw(t, "allow_schema1") == 0
+	gopt.Artifacts = rapid.IntRange(0, 2).Draw(t, "allow_artifacts") == 0
+	gopt.Foreign = rapid.IntRange(0, 4).Draw(t, "allow_foreign") == 0
+	gopt.Sha512 = true      // blobs and manifests named by sha512 digests (blobs/sha512/<hex> members, sha512 descriptors)
+	gopt.NoMediaType = true // OCI image manifests without the optional mediaType field (as C03; the type then comes from the listing descriptor)
+	c.Graph = imggen.Gen(t, gopt)
 	c.SrcKind = rapid.SampledFrom([]string{"reg", "layout"}).Draw(t, "src_kind")
 	c.TgtKind = rapid.SampledFrom([]string{"reg", "reg", "layout"}).Draw(t, "tgt_kind")
 	c.SrcFeat = genFeat(t, "src")
@@ -153,7 +175,26 @@ func genRoundTrip(t *rapid.T) Case {
 	}
 	c.TgtTag = rapid.SampledFrom([]string{"v1", "imported", "latest"}).Draw(t, "tgt_tag")
 	c.TgtByDig = rapid.IntRange(0, 9).Draw(t, "tgt_by_dig") == 0
-	switch rapid.IntRange(0, 5).Draw(t, "pre_mode") {
+	if !c.SrcByDig {
+		c.SrcForm = rapid.SampledFrom([]string{"", "", "", "", "digest", "default", "child", "child"}).Draw(t, "src_form")
+		c.SrcChild = rapid.IntRange(0, 7).Draw(t, "src_child")
+	}
+	if !c.TgtByDig {
+		c.TgtForm = rapid.SampledFrom([]string{"", "", "", "", "", "tag+digest", "default"}).Draw(t, "tgt_form")
+	}
+	c.SrcRedirect = rapid.IntRange(0, 4).Draw(t, "src_redirect") == 0
+	c.TgtChunk = rapid.SampledFrom([]int{0, 0, 0, 64, 512}).Draw(t, "tgt_chunk")
+	c.Reimport = rapid.IntRange(0, 5).Draw(t, "reimport") == 0
+	if rapid.IntRange(0, 5).Draw(t, "has_export_probe") == 0 {
+		c.ExportProbe = rapid.SampledFrom([]string{"cancelled", "cancel-at", "writer-fail", "writer-fail"}).Draw(t, "export_probe")
+	}
+	if rapid.IntRange(0, 7).Draw(t, "has_import_probe") == 0 {
+		c.ImportProbe = rapid.SampledFrom([]string{"cancelled", "cancel-at", "cancel-at"}).Draw(t, "import_probe")
+	}
+	c.ProbeAt = rapid.IntRange(0, 4000).Draw(t, "probe_at")
+	switch rapid.IntRange(0, 6).Draw(t, "pre_mode") {
+	case 6:
+		c.Pre.Complete = true
 	case 0, 1, 2:
 	case 3, 4:
 		for _, d := range c.Graph.AllDigests() {
@@ -207,16 +248,24 @@ func genDocker(t *rapid.T) Case {
 			}
 			nf := rapid.IntRange(0, 3).Draw(t, "nfiles")
 			for f := 0; f < nf; f++ {
-				l.Files = append(l.Files, DFile{Name: rapid.SampledFrom(fileNames).Draw(t, "fname"), Data: rapid.SliceOfN(rapid.Byte(), 0, 48).Draw(t, "fdata")})
+				df := DFile{Name: rapid.SampledFrom(fileNames).Draw(t, "fname"), Data: rapid.SliceOfN(rapid.Byte(), 0, 48).Draw(t, "fdata")}
+				if rapid.IntRange(0, 11).Draw(t, "fbig") == 0 {
+					df.Big = rapid.SampledFrom([]int{32767, 32768, 32769, 70000}).Draw(t, "fbigsize")
+				}
+				l.Files = append(l.Files, df)
 			}
 			im.Layers = append(im.Layers, l)
 		}
 		im.LayerSources = rapid.IntRange(0, 2).Draw(t, "layer_sources") == 0
+		im.Sha512 = rapid.IntRange(0, 3).Draw(t, "img_sha512") == 0
 		dc.Images = append(dc.Images, im)
 	}
 	dc.Pick = rapid.IntRange(0, ni-1).Draw(t, "pick")
 	dc.ByName = rapid.Bool().Draw(t, "by_name")
 	dc.Name = rapid.IntRange(0, 1).Draw(t, "name_idx")
+	dc.PathDot = rapid.IntRange(0, 3).Draw(t, "path_dot") == 0
+	c.TgtChunk = rapid.SampledFrom([]int{0, 0, 0, 64, 512, 32768}).Draw(t, "tgt_chunk")
+	c.Reimport = rapid.IntRange(0, 5).Draw(t, "reimport") == 0
 	c.Docker = dc
 	if rapid.IntRange(0, 2).Draw(t, "docker_variant") != 0 {
 		v := genVariant(t, "dv", false)
@@ -253,6 +302,7 @@ func (e endpoint) name() string {
 }
 
 type env struct {
+	rootID int // node the case exports (the graph root, or one of its images for SrcForm child)
 	c      Case
 	m      *rm.Model
 	ha, hb *rm.Host
@@ -271,6 +321,7 @@ func newEnv(c Case) (*env, error) {
 		return nil, err
 	}
 	e.tmp = tmp
+	e.m.Cap = 60000 // one case runs several imports against the same model (small upload chunks multiply the requests)
 	e.ha = e.m.AddHost(hostA)
 	e.hb = e.m.AddHost(hostB)
 	e.ha.Feat = c.SrcFeat.Features()
@@ -313,11 +364,19 @@ func (e *env) newTarget(tag string, seed map[string]bool, validate bool) (endpoi
 	kf := func(d string) bool { return keep[d] }
 	g := c.Graph
 	stale := c.Pre.StaleTag && tag != ""
+	complete := c.Pre.Complete && g != nil
+	preTags := map[string]int{}
+	if complete {
+		kf = nil
+		if tag != "" {
+			preTags[tag] = e.rootID
+		}
+	}
 	if ep.kind == "reg" {
 		r := ep.host.Repo(ep.repo)
-		if g != nil && len(keep) > 0 {
+		if g != nil && (len(keep) > 0 || complete) {
 			pg := *g
-			pg.Tags = map[string]int{}
+			pg.Tags = preTags
 			pg.PutRegistry(ep.host, ep.repo, false, kf)
 		}
 		if stale {
@@ -328,7 +387,7 @@ func (e *env) newTarget(tag string, seed map[string]bool, validate bool) (endpoi
 		}
 		return ep, nil
 	}
-	if len(keep) == 0 && !stale {
+	if len(keep) == 0 && !stale && !complete {
 		return ep, nil // the directory does not exist yet
 	}
 	st := imggen.LayoutStyle{UntaggedAll: true}
@@ -338,7 +397,7 @@ func (e *env) newTarget(tag string, seed map[string]bool, validate bool) (endpoi
 	pg := imggen.Graph{Blobs: map[string]*imggen.Blob{}, Tags: map[string]int{}}
 	if g != nil {
 		pg = *g
-		pg.Tags = map[string]int{}
+		pg.Tags = preTags
 		nodes := make([]*imggen.Node, len(g.Nodes))
 		for i, n := range g.Nodes {
 			cp := *n
@@ -353,11 +412,46 @@ func (e *env) newTarget(tag string, seed map[string]bool, validate bool) (endpoi
 	return ep, nil
 }
 
+// failWriter accepts left bytes and then fails (disk full, closed pipe).
+type failWriter struct {
+	w    io.Writer
+	left int
+}
+
+var errWriter = errors.New("c09: output writer failed")
+
+func (f *failWriter) Write(p []byte) (int, error) {
+	if len(p) <= f.left {
+		f.left -= len(p)
+		return f.w.Write(p)
+	}
+	n, _ := f.w.Write(p[:f.left])
+	f.left = 0
+	return n, errWriter
+}
+
 // selection is how one import addresses its target and picks an image.
 type selection struct {
 	tag  string // tag of the target ref ("" none)
 	dig  string // digest of the target ref ("" none)
 	name string // ImageWithImportName ("" none)
+	// expect: tag the target must resolve afterwards when it differs from tag ("-" = none is asserted):
+	// a registry ref without tag and digest means the default tag latest
+	expect string
+}
+
+// expectTag is the tag that must name the image after the import ("" none).
+func (s selection) expectTag() string {
+	switch s.expect {
+	case "":
+		if s.dig != "" {
+			return "" // a ref with a digest is resolved by the digest
+		}
+		return s.tag
+	case "-":
+		return ""
+	}
+	return s.expect
 }
 
 // outcome of one import + verification
@@ -376,14 +470,24 @@ type runner struct {
 	validate bool            // targets validate manifest references (when the case asks for it)
 	classes  map[string]bool
 	imports  int
+	chunk    int       // reg.WithBlobSize of the importing client
+	reuse    *endpoint // next import goes into this existing target instead of a fresh one
+	cancelAt int       // next import: -1 live context, 0 cancelled before the call, k cancelled when the k-th request reaches the target
+	probeErr error     // set when the import under cancellation failed (not judged)
 }
 
 // importVerify imports archive into a fresh target and verifies it with vf.
 func (rt *runner) importVerify(archive []byte, sel selection, stage string, vf func(ep endpoint, stage string) *evid.Violation) outcome {
 	rt.imports++
-	ep, err := rt.e.newTarget(sel.tag, rt.seed, rt.validate)
-	if err != nil {
-		return outcome{v: &evid.Violation{Sig: "harness-setup", Msg: err.Error()}}
+	var ep endpoint
+	var err error
+	if rt.reuse != nil {
+		ep, rt.reuse = *rt.reuse, nil
+	} else {
+		ep, err = rt.e.newTarget(sel.expectTag(), rt.seed, rt.validate)
+		if err != nil {
+			return outcome{v: &evid.Violation{Sig: "harness-setup", Msg: err.Error()}}
+		}
 	}
 	s := ep.name()
 	if sel.tag != "" {
@@ -396,25 +500,57 @@ func (rt *runner) importVerify(archive []byte, sel selection, stage string, vf f
 	if err != nil {
 		return outcome{v: &evid.Violation{Sig: "harness-setup", Msg: fmt.Sprintf("ref %q: %v", s, err)}}
 	}
-	rc := rcutil.New(rt.e.m, rcutil.Conf{})
+	conf := rcutil.Conf{}
+	if rt.chunk > 0 {
+		conf.RegOpts = append(conf.RegOpts, reg.WithBlobSize(int64(rt.chunk), int64(rt.chunk)))
+	}
+	rc := rcutil.New(rt.e.m, conf)
 	ctx, cancel := context.WithTimeout(context.Background(), 60*time.Second)
 	defer cancel()
+	probing := rt.cancelAt >= 0
+	if probing {
+		k, n := rt.cancelAt, 0
+		rt.cancelAt = -1
+		if k == 0 || ep.kind != "reg" {
+			cancel()
+		} else {
+			host := ep.host.Name
+			rt.e.m.OnArrive = func(en *rm.Entry) {
+				if en.Host == host {
+					if n++; n == k {
+						cancel()
+					}
+				}
+			}
+			defer func() { rt.e.m.OnArrive = nil }()
+		}
+	}
 	var opts []regclient.ImageOpts
 	if sel.name != "" {
 		opts = append(opts, regclient.ImageWithImportName(sel.name))
 	}
 	err = rc.ImageImport(ctx, tr, bytes.NewReader(archive), opts...)
-	if ctx.Err() == context.DeadlineExceeded {
+	if !probing && ctx.Err() == context.DeadlineExceeded {
 		return outcome{inconclusive: true}
 	}
 	if rt.e.m.CapHit() {
 		return outcome{inconclusive: true}
 	}
+	if probing && err != nil {
+		rt.probeErr = err
+		return outcome{} // an import that reports the cancellation is not judged
+	}
+	if probing {
+		// the verification below must not run under the cancelled context
+		var c2 context.CancelFunc
+		ctx, c2 = context.WithTimeout(context.Background(), 60*time.Second)
+		defer c2()
+	}
 	if err != nil {
 		return outcome{importErr: err, ep: ep, v: evid.V("import-error", "%s: ImageImport(%s) failed: %s", stage, s, short(err))}
 	}
 	if v := vf(ep, stage+"/after-import"); v != nil {
-		return outcome{v: v}
+		return outcome{v: v, ep: ep}
 	}
 	if ep.kind == "layout" && sel.tag != "" {
 		if err := rc.Close(ctx, tr); err != nil {
@@ -422,10 +558,10 @@ func (rt *runner) importVerify(archive []byte, sel selection, stage string, vf f
 		}
 		if v := vf(ep, stage+"/after-close"); v != nil {
 			v.Sig = "after-close-" + v.Sig
-			return outcome{v: v}
+			return outcome{v: v, ep: ep}
 		}
 	}
-	return outcome{}
+	return outcome{ep: ep}
 }
 
 // untypedBody tells whether a manifest body is an image manifest whose type can only
@@ -444,9 +580,9 @@ func untypedBody(body []byte) bool {
 	return true
 }
 
-func closureNodes(g *imggen.Graph) []*imggen.Node {
+func closureNodes(g *imggen.Graph, rootID int) []*imggen.Node {
 	var out []*imggen.Node
-	for _, id := range g.ManifestClosure(g.Root) {
+	for _, id := range g.ManifestClosure(rootID) {
 		out = append(out, g.Nodes[id])
 	}
 	return out
@@ -581,19 +717,50 @@ func checkRoundTrip(c Case, ev *evid.Collector) *evid.Violation {
 	}
 	defer e.close()
 	g := c.Graph
-	root := g.Nodes[g.Root]
+	rootID := g.Root
+	srcForm := c.SrcForm
+	if srcForm == "child" {
+		// what `regctl image export --platform` does: the tag of the index plus the digest of one of its images
+		var cands []int
+		for _, id := range g.ManifestClosure(g.Root) {
+			if id != g.Root && g.Nodes[id].Kind == "image" {
+				cands = append(cands, id)
+			}
+		}
+		if len(cands) == 0 {
+			srcForm = ""
+		} else {
+			rootID = cands[mod(c.SrcChild, len(cands))]
+		}
+	}
+	e.rootID = rootID
+	root := g.Nodes[rootID]
 	// ---- source: always complete and spec conformant
 	ext := e.m.AddExternal(hostExt)
 	g.PutExternal(ext)
+	sg := g
+	if srcForm == "default" {
+		// a reference without tag and digest means the tag latest
+		cp := *g
+		cp.Tags = map[string]int{"latest": g.Root}
+		for t, id := range g.Tags {
+			cp.Tags[t] = id
+		}
+		sg = &cp
+	}
 	var src endpoint
 	if c.SrcKind == "layout" {
 		src = endpoint{kind: "layout", dir: filepath.Join(e.tmp, "src")}
-		if err := g.PutLayout(src.dir, imggen.LayoutStyle{}, nil); err != nil {
+		if err := sg.PutLayout(src.dir, imggen.LayoutStyle{}, nil); err != nil {
 			return &evid.Violation{Sig: "harness-setup", Msg: err.Error()}
 		}
 	} else {
 		src = endpoint{kind: "reg", host: e.ha, repo: repoSrc}
-		g.PutRegistry(e.ha, repoSrc, !e.ha.Feat.Referrers, nil)
+		sg.PutRegistry(e.ha, repoSrc, !e.ha.Feat.Referrers, nil)
+		if c.SrcRedirect {
+			st := e.m.AddStorage("store.example.test", e.ha)
+			e.ha.Feat.BlobRedirect = st.Name
+		}
 	}
 	cl := audit.ClosureEx(src.view(), root.Digest, root.MediaType, audit.Opts{})
 	if len(cl.Problems) > 0 {
@@ -603,7 +770,7 @@ func checkRoundTrip(c Case, ev *evid.Collector) *evid.Violation {
 	unsupported := []string{}
 	hasIndex, hasBlobEntry := false, false
 	blobEntry := map[string]bool{}
-	for _, n := range closureNodes(g) {
+	for _, n := range closureNodes(g, rootID) {
 		switch n.Kind {
 		case "schema1":
 			unsupported = append(unsupported, "schema1")
@@ -646,6 +813,29 @@ func checkRoundTrip(c Case, ev *evid.Collector) *evid.Violation {
 	if c.TgtByDig {
 		classes["opt:tgt-by-digest"] = true
 	}
+	if srcForm != "" {
+		classes["opt:src-"+srcForm] = true
+	}
+	if c.TgtForm != "" {
+		classes["opt:tgt-"+c.TgtForm] = true
+	}
+	if c.SrcRedirect && c.SrcKind == "reg" {
+		classes["src:blob-redirect"] = true
+	}
+	if c.TgtChunk > 0 && c.TgtKind == "reg" {
+		classes[fmt.Sprintf("tgt:chunk=%d", c.TgtChunk)] = true
+	}
+	if c.Pre.Complete {
+		classes["pre:complete"] = true
+	}
+	for _, l := range []string{"sha512-blob", "sha512-manifest"} {
+		if g.HasLabel(l) {
+			classes["graph:"+l] = true
+		}
+	}
+	if strings.HasPrefix(root.Digest, "sha512:") {
+		classes["root:sha512"] = true
+	}
 	if c.TgtFeat.Validate && c.TgtKind == "reg" {
 		classes["tgt:validating"] = true
 	}
@@ -659,13 +849,24 @@ func checkRoundTrip(c Case, ev *evid.Collector) *evid.Violation {
 	vkey := variantKey(c.Variants, nil) // refined with the link classes once the archive's members are known
 	finish := func(outcomeClass string, counted bool) {
 		classes["outcome:"+outcomeClass] = true
-		ev.Case(counted && nt, g.Shape()+"|"+c.SrcKind+">"+c.TgtKind+fmt.Sprintf("|gz%v,er%d,sd%v,td%v,p%d%v", c.Gzip, c.ExportRef, c.SrcByDig, c.TgtByDig, len(c.Pre.Keep), c.Pre.StaleTag)+"|"+vkey,
+		ev.Case(counted && nt, g.Shape()+"|"+c.SrcKind+">"+c.TgtKind+fmt.Sprintf("|gz%v,er%d,sd%v,td%v,p%d%v%v,sf%s%d,tf%s,rd%v,ch%d,ri%v,xp%s,ip%s", c.Gzip, c.ExportRef, c.SrcByDig, c.TgtByDig, len(c.Pre.Keep), c.Pre.StaleTag, c.Pre.Complete,
+			srcForm, rootID, c.TgtForm, c.SrcRedirect, c.TgtChunk, c.Reimport, c.ExportProbe, c.ImportProbe)+"|"+vkey,
 			sortedKeys(classes)...)
 	}
 	// ---- export
 	ss := src.name() + ":" + srcTag
-	if c.SrcByDig {
+	expTag, tagKnown := srcTag, true
+	switch {
+	case c.SrcByDig || srcForm == "child":
 		ss += "@" + root.Digest
+	case srcForm == "digest":
+		ss = src.name() + "@" + root.Digest
+		expTag, tagKnown = "latest", false // no tag to name in the index; the Docker manifest "defaults to latest"
+	case srcForm == "default":
+		ss = src.name()
+		// ref.New gives a registry reference the tag latest; an ocidir reference stays without tag (the layout
+		// is read at latest, what the index then carries as ref.name is not documented and not judged)
+		expTag, tagKnown = "latest", c.SrcKind == "reg"
 	}
 	sr, err := ref.New(ss)
 	if err != nil {
@@ -675,14 +876,13 @@ func checkRoundTrip(c Case, ev *evid.Collector) *evid.Violation {
 	if c.Gzip {
 		xo = append(xo, regclient.ImageWithExportCompress())
 	}
-	expTag := srcTag
 	if c.ExportRef > 0 && c.ExportRef < len(exportRefs) {
 		er, err := ref.New(exportRefs[c.ExportRef].Ref)
 		if err != nil {
 			return &evid.Violation{Sig: "harness-setup", Msg: err.Error()}
 		}
 		xo = append(xo, regclient.ImageWithExportRef(er))
-		expTag = exportRefs[c.ExportRef].Tag
+		expTag, tagKnown = exportRefs[c.ExportRef].Tag, true
 	}
 	rcx := rcutil.New(e.m, rcutil.Conf{})
 	ctx, cancel := context.WithTimeout(context.Background(), 60*time.Second)
@@ -700,7 +900,7 @@ func checkRoundTrip(c Case, ev *evid.Collector) *evid.Violation {
 			return nil
 		}
 		if c.SrcKind == "layout" && strings.Contains(err.Error(), "unsupported media type") {
-			for _, n := range closureNodes(g) {
+			for _, n := range closureNodes(g, rootID) {
 				if n.ID != root.ID && n.Kind == "image" && untypedBody(n.Body) {
 					v := evid.V("export-layout-nested-manifest-without-mediatype", "ImageExport(%s) from an OCI layout fails on the nested image manifest %s, which has no mediaType field and no layers "+
 						"(legal OCI; its type is given by the index descriptor that lists it): %s", ss, n.Digest, short(err))
@@ -732,11 +932,12 @@ func checkRoundTrip(c Case, ev *evid.Collector) *evid.Violation {
 	ev.Sample(map[string]any{"kind": c.Kind, "shape": g.Shape(), "src": c.SrcKind, "tgt": c.TgtKind, "gzip": c.Gzip, "export_ref": exportRefs[c.ExportRef%len(exportRefs)].Ref,
 		"members": len(entries), "archive_bytes": len(raw), "variants": variantKey(c.Variants, regNamesOf(entries)), "unsupported": unsupported, "pre_keep": len(c.Pre.Keep)})
 	// ---- oracle (1): archive audit
-	w := want{RootDigest: root.Digest, RootMT: root.MediaType, RootBody: root.Body, Tag: expTag, Single: root.Kind == "image", SrcClosure: cl.Content}
-	if v := auditArchive(entries, w, func(parent string) bool {
+	w := want{RootDigest: root.Digest, RootMT: root.MediaType, RootBody: root.Body, Tag: expTag, NoIndexTag: !tagKnown, Single: root.Kind == "image", SrcClosure: cl.Content}
+	underArtifact := func(parent string) bool {
 		n := g.ByDigest(parent)
 		return n != nil && n.Kind == "artifact"
-	}); v != nil {
+	}
+	if v := auditArchive(entries, w, underArtifact); v != nil {
 		finish("archive-audit-failed", true)
 		if ev.IsKnown(v.Sig) {
 			ev.Report(v, c)
@@ -744,15 +945,69 @@ func checkRoundTrip(c Case, ev *evid.Collector) *evid.Violation {
 		}
 		return v
 	}
+	// ---- probes of the export: the same export under a context / writer fault. An export that reports the
+	// fault is not judged; one that returns nil must have written the same well-formed archive.
+	if c.ExportProbe != "" && !strings.Contains(os.Getenv("VERIF_C09_NOPROBE"), c.ExportProbe) {
+		classes["probe:export-"+c.ExportProbe] = true
+		pctx, pcancel := context.WithTimeout(context.Background(), 60*time.Second)
+		var out io.Writer
+		var pbuf bytes.Buffer
+		out = &pbuf
+		switch c.ExportProbe {
+		case "cancelled":
+			pcancel()
+		case "cancel-at":
+			if c.SrcKind != "reg" {
+				pcancel()
+				break
+			}
+			k, n := 1+c.ProbeAt%12, 0
+			e.m.OnArrive = func(en *rm.Entry) {
+				if en.Host == hostA || en.Host == "store.example.test" {
+					if n++; n == k {
+						pcancel()
+					}
+				}
+			}
+		case "writer-fail":
+			out = &failWriter{w: &pbuf, left: c.ProbeAt % (len(raw) + 1)}
+		}
+		perr := rcutil.New(e.m, rcutil.Conf{}).ImageExport(pctx, sr, out, xo...)
+		e.m.OnArrive = nil
+		pcancel()
+		if perr == nil {
+			classes["probe:export-returned-nil"] = true
+			pes, _, err := parseTar(pbuf.Bytes())
+			var pv *evid.Violation
+			if err != nil {
+				pv = evid.V("archive-unreadable", "not a readable tar archive: %v", err)
+			} else {
+				pv = auditArchive(pes, w, underArtifact)
+			}
+			if pv != nil {
+				finish("export-probe-failed", true)
+				what := map[string]string{"cancelled": "a context that was already cancelled", "cancel-at": "a context cancelled while it ran",
+					"writer-fail": fmt.Sprintf("an output writer that accepts %d of the archive's %d bytes and then returns an error", c.ProbeAt%(len(raw)+1), len(raw))}[c.ExportProbe]
+				sig := "export-nil-under-" + c.ExportProbe + "-" + pv.Sig
+				if c.ExportProbe == "writer-fail" {
+					sig = "export-nil-although-writer-failed" // one cause, whatever the truncated output then lacks
+				}
+				return evid.V(sig, "ImageExport(%s) with %s returned nil, but what it wrote (%d bytes) is not the archive: %s", ss, what, pbuf.Len(), pv.Msg)
+			}
+		}
+	}
 	// ---- oracle (2): base import
-	rt := &runner{e: e, c: c, ev: ev, validate: true, classes: classes}
+	rt := &runner{e: e, c: c, ev: ev, validate: true, classes: classes, cancelAt: -1}
+	if c.TgtKind == "reg" {
+		rt.chunk = c.TgtChunk
+	}
 	// a digest that is (also) named as a foreign layer is not judged at the target: BlobHead of such a
 	// descriptor is answered by the external URL and the import rightly does not push foreign layers
 	required := map[string][]byte{}
 	for d, b := range cl.Content {
 		required[d] = b
 	}
-	for _, n := range closureNodes(g) {
+	for _, n := range closureNodes(g, rootID) {
 		for _, d := range n.Foreign {
 			delete(required, d)
 		}
@@ -766,8 +1021,38 @@ func checkRoundTrip(c Case, ev *evid.Collector) *evid.Violation {
 		}
 	}
 	baseSel := selection{tag: c.TgtTag}
-	if c.TgtByDig {
+	switch {
+	case c.TgtByDig:
 		baseSel = selection{dig: root.Digest}
+	case c.TgtForm == "tag+digest":
+		baseSel = selection{tag: c.TgtTag, dig: root.Digest}
+	case c.TgtForm == "default" && c.TgtKind == "reg":
+		baseSel = selection{expect: "latest"} // ref.New: a registry reference without tag and digest names latest
+	case c.TgtForm == "default":
+		baseSel = selection{expect: "-"} // an ocidir reference stays without tag; which tag the layout then gets is not judged
+	}
+	// ---- probe of the import: the same import under a cancelled context; only a nil return is judged
+	if c.ImportProbe != "" {
+		classes["probe:import-"+c.ImportProbe] = true
+		rt.cancelAt = 0
+		if c.ImportProbe == "cancel-at" {
+			rt.cancelAt = 1 + c.ProbeAt%16
+		}
+		rt.probeErr = nil
+		o := rt.importVerify(raw, baseSel, "import under "+c.ImportProbe, verifyMain(baseSel.expectTag()))
+		rt.cancelAt = -1
+		if o.inconclusive {
+			watchdogs.Add(1)
+			finish("watchdog", false)
+			return nil
+		}
+		if rt.probeErr == nil {
+			classes["probe:import-returned-nil"] = true
+		}
+		if o.v != nil {
+			finish("import-probe-failed", true)
+			return evid.V("import-nil-under-"+c.ImportProbe+"-"+o.v.Sig, "ImageImport returned nil although its context was cancelled, and the target is not complete: %s", o.v.Msg)
+		}
 	}
 	tolerate := func(o outcome) bool { return !supported && o.importErr != nil }
 	// diagnose attributes an import error to a graph / target level cause by
@@ -847,7 +1132,7 @@ func checkRoundTrip(c Case, ev *evid.Collector) *evid.Violation {
 			}
 			// the known shape: a nested index is PUT before a child manifest that another index lists too
 			parents := map[string]map[string]bool{}
-			for _, n := range closureNodes(g) {
+			for _, n := range closureNodes(g, rootID) {
 				for _, cid := range n.Children {
 					cd := g.Nodes[cid].Digest
 					if parents[cd] == nil {
@@ -875,7 +1160,7 @@ func checkRoundTrip(c Case, ev *evid.Collector) *evid.Violation {
 		return o.v, false
 	}
 	for round := 0; ; round++ {
-		run := func() outcome { return rt.importVerify(raw, baseSel, "base", verifyMain(baseSel.tag)) }
+		run := func() outcome { return rt.importVerify(raw, baseSel, "base", verifyMain(baseSel.expectTag())) }
 		o := run()
 		if o.inconclusive {
 			watchdogs.Add(1)
@@ -883,6 +1168,22 @@ func checkRoundTrip(c Case, ev *evid.Collector) *evid.Violation {
 			return nil
 		}
 		if o.v == nil {
+			if c.Reimport {
+				// the same archive once more into the same target
+				classes["opt:reimport"] = true
+				ep := o.ep
+				rt.reuse = &ep
+				o2 := run()
+				if o2.inconclusive {
+					watchdogs.Add(1)
+					finish("watchdog", false)
+					return nil
+				}
+				if o2.v != nil && !tolerate(o2) {
+					finish("reimport-failed", true)
+					return evid.V("reimport-"+o2.v.Sig, "importing the same archive a second time into the same target: %s", o2.v.Msg)
+				}
+			}
 			break
 		}
 		if tolerate(o) {
@@ -910,7 +1211,7 @@ func checkRoundTrip(c Case, ev *evid.Collector) *evid.Violation {
 			if err != nil {
 				return outcome{v: &evid.Violation{Sig: "harness-variant", Msg: err.Error()}}
 			}
-			vraw, err := buildTarSplit(es, v.Gzip, v.GzSplit)
+			vraw, err := buildTarFmt(es, v.Gzip, v.GzSplit, v.TarFormat)
 			if err != nil {
 				return outcome{v: &evid.Violation{Sig: "harness-variant", Msg: err.Error()}}
 			}
@@ -921,7 +1222,18 @@ func checkRoundTrip(c Case, ev *evid.Collector) *evid.Violation {
 				if m.PickDecoy {
 					ann, dig = decoyTag, decoyDig
 				}
-				switch m.By {
+				by := m.By
+				if !m.PickDecoy && !tagKnown && by != "digest" {
+					by = "digest" // the exported entry carries no known ref.name to select by
+				}
+				if m.FullNames {
+					// ref.name holds a full image name (as skopeo / other tools write it): selectable by that name
+					ann = fullNamePrefix + ann
+					if by == "tag" {
+						by = "name"
+					}
+				}
+				switch by {
 				case "name":
 					sel = selection{tag: c.TgtTag, name: ann}
 				case "tag":
@@ -1110,7 +1422,33 @@ func checkDocker(c Case, ev *evid.Collector) *evid.Violation {
 		ev.Case(counted && len(pim.Layers) > 0, shape+"|"+dc.DupAs+"|"+c.TgtKind+"|"+vkey, sortedKeys(classes)...)
 	}
 	ev.Sample(map[string]any{"kind": c.Kind, "style": dc.Style, "images": len(dc.Images), "pick": pick, "select_name": sel.name, "select_tag": sel.tag, "layers": len(pim.Layers), "variant": vkey, "members": len(b.entries)})
-	rt := &runner{e: e, c: c, ev: ev, validate: true, classes: classes}
+	rt := &runner{e: e, c: c, ev: ev, validate: true, classes: classes, cancelAt: -1}
+	if c.TgtKind == "reg" && c.TgtChunk > 0 {
+		rt.chunk = c.TgtChunk
+		for _, im := range dc.Images {
+			for _, l := range im.Layers {
+				for _, f := range l.Files {
+					if f.Big > 0 && rt.chunk < 4096 {
+						rt.chunk = 4096 // keep the request count of a 70 kB layer bounded
+					}
+				}
+			}
+		}
+		classes[fmt.Sprintf("tgt:chunk=%d", rt.chunk)] = true
+	}
+	if dc.PathDot {
+		classes["docker:manifest-paths-dot-slash"] = true
+	}
+	if pim.Sha512 && dc.Style != "legacy" {
+		classes["docker:sha512-blobs"] = true
+	}
+	for _, l := range pim.Layers {
+		for _, f := range l.Files {
+			if f.Big > 0 {
+				classes["docker:big-file"] = true
+			}
+		}
+	}
 	vf := func(tag string) func(ep endpoint, stage string) *evid.Violation {
 		return func(ep endpoint, stage string) *evid.Violation {
 			v := verifyDocker(ep.view(), tag, b.cfg[pick], b.layers[pick])
@@ -1158,6 +1496,23 @@ func checkDocker(c Case, ev *evid.Collector) *evid.Violation {
 		finish("docker-base-failed", true)
 		return qualify(o, false)
 	}
+	if c.Reimport {
+		classes["opt:reimport"] = true
+		ep := o.ep
+		rt.reuse = &ep
+		o2 := rt.importVerify(raw, sel, "docker base, second import into the same target", vf(sel.tag))
+		if o2.inconclusive {
+			watchdogs.Add(1)
+			finish("watchdog", false)
+			return nil
+		}
+		if o2.v != nil {
+			finish("reimport-failed", true)
+			v := qualify(o2, false)
+			v.Sig = "reimport-" + v.Sig
+			return v
+		}
+	}
 	if c.DockerVar != nil {
 		cur := *c.DockerVar
 		try := func(v Variant, label string) outcome {
@@ -1165,7 +1520,7 @@ func checkDocker(c Case, ev *evid.Collector) *evid.Violation {
 			if err != nil {
 				return outcome{v: &evid.Violation{Sig: "harness-variant", Msg: err.Error()}}
 			}
-			vraw, err := buildTarSplit(es, v.Gzip, v.GzSplit)
+			vraw, err := buildTarFmt(es, v.Gzip, v.GzSplit, v.TarFormat)
 			if err != nil {
 				return outcome{v: &evid.Violation{Sig: "harness-variant", Msg: err.Error()}}
 			}
